@@ -102,7 +102,7 @@ def extract_method_header(headers):
                 return v
 
 
-def is_informational_response(headers):
+def is_informational_response(headers, normalize=False):
     """
     Searches a header block for a :status header to confirm that a given
     collection of headers are an informational response. Assumes the header
@@ -111,9 +111,16 @@ def is_informational_response(headers):
     header field whose name does not begin with a colon.
 
     :param headers: The HTTP/2 header block.
+    :param normalize: Whether to look at the names and values the way outbound
+        normalization will leave them (names lowercased, surrounding
+        whitespace stripped) rather than as they are.
     :returns: A boolean indicating if this is an informational response.
     """
     for n, v in headers:
+        if normalize:
+            n = n.strip().lower()
+            v = v.strip()
+
         if isinstance(n, bytes):
             sigil = b':'
             status = b':status'
